@@ -37,6 +37,7 @@
 #include <iostream>
 #include <map>
 #include <optional>
+#include <cstdio>
 #include <set>
 #include <sstream>
 #include <string>
@@ -325,8 +326,13 @@ static std::string showOutcome(const Outcome& r) {
 
 static Parser& theParser() { static Parser p; return p; }
 
+// the deck handed to the real code is kept on disk while it runs: if the real code dies on it (signal, abort) the
+// orchestration finds the killing input there (lib/vlib.py: _keep_current_input)
+static std::string CURRENT_INPUT;
+
 static Outcome runReal(const std::string& deckStr, int ncells) {
     Outcome r;
+    if (!CURRENT_INPUT.empty()) vh::spit(CURRENT_INPUT, deckStr);
     try {
         ParseContext pc;
         ErrorGuard eg;
@@ -2058,6 +2064,20 @@ static void runWitnesses(vh::PropLog& log, std::map<std::string, long>& stats) {
         else log.ok();
         stats["witness.multivalue-inactive"]++;
     }
+    // (e) the same (region set, id) named again after the region array itself was rewritten by COPY / COPYREG
+    //     (seeded change C12-4: a memo of region_index that COPY into an integer array does not drop)
+    {
+        const std::string head = "PORO\n 3*0.3 /\nFLUXNUM\n 1 2 2 /\nMULTNUM\n 2 1 1 /\nEQUALREG\n NTG 0.5 2 M /\n/\n";
+        const auto a = realGetDouble(smallDeck("3 1 1", 3, head + "COPY\n FLUXNUM MULTNUM /\n/\nEQUALREG\n NTG 0.25 2 M /\n/\n", "WATER\n"), "NTG");
+        if (!a) log.fail("witness.region-key-after-copy", "EQUALREG, COPY FLUXNUM MULTNUM, EQUALREG is rejected");
+        else if (!sameBits(*a, { 0.5, 0.25, 0.25 })) log.fail("witness.region-key-after-copy", "NTG after EQUALREG 0.5 (MULTNUM 2), COPY FLUXNUM MULTNUM, EQUALREG 0.25 (MULTNUM 2) is not 0.5 0.25 0.25");
+        else log.ok();
+        const auto b = realGetDouble(smallDeck("3 1 1", 3, head + "COPYREG\n FLUXNUM MULTNUM 1 F /\n/\nEQUALREG\n NTG 0.25 2 M /\n/\n", "WATER\n"), "NTG");
+        if (!b) log.fail("witness.region-key-after-copyreg", "EQUALREG, COPYREG FLUXNUM MULTNUM 1 F, EQUALREG is rejected");
+        else if (!sameBits(*b, { 0.5, 1.0, 1.0 })) log.fail("witness.region-key-after-copyreg", "NTG after EQUALREG 0.5 (MULTNUM 2), COPYREG FLUXNUM MULTNUM 1 F (no cell left with MULTNUM 2), EQUALREG 0.25 (MULTNUM 2) is not 0.5 1 1");
+        else log.ok();
+        stats["witness.region-key-after-copy"]++;
+    }
     // (d) ADD on an array whose deck unit has an offset: the shift is a temperature difference
     //     (50 C + 10 C = 60 C = 333.15 K; the full conversion of the shift would add 273.15 twice)
     {
@@ -2089,6 +2109,7 @@ int main(int argc, char** argv) {
     const uint64_t seed = std::stoull(argv[2]);
     const std::string tier = argv[3], outdir = argv[4];
     vh::Rng rng(seed * 7919 + (mode == "corr" ? 1 : 2));
+    CURRENT_INPUT = outdir + "/current_input.DATA";
 
     if (mode == "corr") {
         vh::Sink sink(outdir);
@@ -2191,6 +2212,7 @@ int main(int argc, char** argv) {
             sink.emit(o.str(), ans);
         }
         sink.writeStats(outdir + "/stats.json");
+        std::remove(CURRENT_INPUT.c_str());
         return 0;
     }
 
@@ -2271,6 +2293,7 @@ int main(int argc, char** argv) {
         st << "{\n  \"checked\": " << log.checked << ",\n  \"failed\": " << log.failed;
         for (auto& kv : stats) st << ",\n  \"" << kv.first << "\": " << kv.second;
         st << "\n}\n";
+        std::remove(CURRENT_INPUT.c_str());
         return 0;
     }
     std::cerr << "unknown mode\n";
